@@ -3,6 +3,18 @@
 PENDING = "check not built yet in this session (planned: see DESIGN.md section 4); not claimed until its rule module exists"
 
 CLAIMS = {
+    "C01": {
+        "engine": "E4 operator descriptors + symbolic Linop algebra, E3 terms, raw-axes typestate",
+        "category": "other",
+        "technique": "static analysis: symbolic evaluation of every constructor and _adjoint_linop into operator terms; shape-swap, partner-primitive, parameter-forwarding, combinator, involution obligations by canonical-term equality; interprocedural taint analysis of raw axes",
+        "text": "Decides, for all 38 Linop classes and every constructor path, that the expression returned by _adjoint_linop has the operator's shapes swapped, is built on "
+                "the adjoint partner primitive, receives every configuration value (shifts exchanged, shift negated, flags toggled, inverse permutation), that combinator "
+                "adjoints have the mathematically required form, that A.H.H reproduces A's class/shapes/action parameters, that negative axes are normalised before any "
+                "order-sensitive use, and that MRI factories use only these classes. It quantifies over all parameter values at once (the tests fix one configuration per class).",
+        "design_ref": "DESIGN.md section 4 C01",
+        "note": "Structural clauses only: numerical exactness of numpy/scipy/pywt primitives and of the kernels is decided in C05-C10 or trusted. Adjoint partner table and "
+                "combinator adjoints are mathematical facts frozen in rules/c01.py. Child operators are assumed to satisfy the same rules (induction over the expression tree).",
+    },
     "C02": {
         "engine": "E2 alias/effect analysis + linearity typing",
         "category": "other",
